@@ -156,3 +156,44 @@ Theorem run_functional : forall (img img' : image) ser aud n,
   img = img' ->
   (do cs <- sys_new img ser aud; sys_cycles n cs) = (do cs <- sys_new img' ser aud; sys_cycles n cs).
 Proof. intros; subst; reflexivity. Qed.
+
+(* ---- C25 over whole schedules: any interleaving of steps of the instances gives every instance exactly the state
+   its solo run of as many cycles as it was scheduled gives ---- *)
+Fixpoint run_sched (sch : list nat) (l : list (cpu * sys)) : res (list (cpu * sys)) :=
+  match sch with
+  | [] => Ok l
+  | i :: r => do l' <- step_at i l; run_sched r l'
+  end.
+
+Lemma sys_cycles_snoc n x y z : sys_cycle x = Ok y -> sys_cycles n y = Ok z -> sys_cycles (S n) x = Ok z.
+Proof. intros H1 H2. cbn [sys_cycles]. rewrite H1. cbn [bind]. exact H2. Qed.
+
+Lemma nth_error_nth_eq (A : Type) (l l' : list A) j :
+  length l' = length l -> (forall d, nth j l' d = nth j l d) -> nth_error l' j = nth_error l j.
+Proof.
+  revert l' j. induction l as [|a l IH]; intros l' j Hl Hn; destruct l' as [|a' l']; try discriminate.
+  - reflexivity.
+  - destruct j as [|j]; cbn.
+    + specialize (Hn a). cbn in Hn. rewrite Hn. reflexivity.
+    + apply IH; [cbn in Hl; congruence|]. intros d. apply (Hn d).
+Qed.
+
+Theorem schedule_independent : forall sch l l',
+  run_sched sch l = Ok l' ->
+  length l' = length l /\
+  forall j x, nth_error l j = Some x ->
+    exists y, sys_cycles (count_occ Nat.eq_dec sch j) x = Ok y /\ nth_error l' j = Some y.
+Proof.
+  induction sch as [|i r IH]; intros l l' H; cbn [run_sched] in H.
+  - inversion H; subst. split; [reflexivity|]. intros j x Hx. exists x. split; [reflexivity|exact Hx].
+  - destruct (step_at i l) as [l1| |] eqn:E; cbn [bind] in H; try discriminate.
+    destruct (instances_independent i l l1 E) as (Hl & Hn & Hx).
+    destruct (IH l1 l' H) as (Hl' & Hr).
+    split; [congruence|].
+    intros j x Hj. cbn [count_occ]. destruct (Nat.eq_dec i j) as [->|Hne].
+    + destruct (Hx x Hj) as (y & Hy & Hy1). destruct (Hr j y Hy1) as (z & Hz & Hz1).
+      exists z. split; [|exact Hz1]. apply (sys_cycles_snoc _ _ _ _ Hy Hz).
+    + assert (Hj1 : nth_error l1 j = Some x).
+      { rewrite <- Hj. apply nth_error_nth_eq; [exact Hl|]. intros d. apply Hn. intros ->. apply Hne. reflexivity. }
+      exact (Hr j x Hj1).
+Qed.
